@@ -98,6 +98,13 @@ func (b *TxBuilder) Build(fee int64, gas uint64, signers []*Account, msgs ...sdk
 	return bz, nil
 }
 
+// Forget takes back the last transaction built for the signer (it is not going into the block being assembled).
+func (b *TxBuilder) Forget(a *Account) {
+	if b.pending[a.Bech()] > 0 {
+		b.pending[a.Bech()]--
+	}
+}
+
 func signWithPriv(ctx sdk.Context, txCfg client.TxConfig, sd authsigning.SignerData, tb client.TxBuilder, acc *Account, seq uint64) (txsigning.SignatureV2, error) {
 	bz, err := authsigning.GetSignBytesAdapter(ctx, txCfg.SignModeHandler(), txsigning.SignMode_SIGN_MODE_DIRECT, sd, tb.GetTx())
 	if err != nil {
